@@ -53,5 +53,7 @@ class DimacsCmdHelper(FormulaHelper):
         with msg_prefix("INPUT: "):
             interactive_msg(msg)
 
+        if args.input is None:
+            raise ValueError("the standard input is closed: no formula to read")
         F = from_dimacs_file(formula_class,args.input)
         return F
